@@ -139,7 +139,11 @@ class Builder06(Builder):
 
 
 def from_design(job):
+    job["_stage"] = "build"
     top = Builder06(job["design"]).build()
+    job["_stage"] = "elaborate"
+    h.elaborate(top)
+    job["_stage"] = "export"
     return [h.to_proto(top)]
 
 
@@ -213,7 +217,9 @@ def do(job):
         pkgs = SOURCES[job["source"]](job)
     except Exception as e:
         out["err"] = exc_info(e)
+        out["stage"] = job.pop("_stage", None)
         return out
+    job.pop("_stage", None)
     if job["source"] == "driver":
         # what the other driver itself reported as its failure, if it caught one (class only)
         res = job.pop("_driver_result", None)
